@@ -128,6 +128,15 @@ def ro_case(draw, families=None, exact_only=False, max_cons=4, allow_eq=True, al
         obj['e'] = _vec(draw, ny)
         obj['f'] = _vec(draw, nw)
         obj['style'] = draw(st.integers(0, 4))
+        if draw(st.integers(0, 3)) == 0:
+            # piecewise objective: minmax(maxof(p0, p1, ...)) / maxmin(minof(...)) with bi-affine pieces
+            obj['extra'] = []
+            for _ in range(draw(st.integers(1, 2))):
+                pc = {'d0': _vec(draw, nx), 'D': _mat(draw, nx, nw, 0.3) if draw(st.booleans()) else [[0.0] * nw for _ in range(nx)],
+                      'e': _vec(draw, ny), 'f': _vec(draw, nw), 'f0': float(draw(st.integers(-1, 1)))}
+                if not any(pc['d0']) and not any(pc['e']) and not any(any(r) for r in pc['D']):
+                    pc['d0'][0] = 1.0
+                obj['extra'].append(pc)
     case = {'nx': nx, 'ny': ny, 'nz': nz, 'nu': nu, 'ymask': ymask, 'sets': sets, 'cons': cons,
             'xlo': xlo, 'xhi': xhi, 'obj': obj, 'witness': {'x': xbar, 'y0': ybar, 'Y': Ybar},
             'set_arg': draw(st.sampled_from(['list', 'tuple', 'varargs'])),
@@ -299,6 +308,11 @@ def build(case, order=None):
     else:
         row = {'a0': o['d0'], 'A': o['D'], 'b': o['e'], 'c': o['f'], 'c0': o['f0']}
         e = _row_expr(row, x, y, z, u, nz, o.get('style', 0))
+        if o.get('extra'):
+            import rsome as rso
+            more = [_row_expr({'a0': pc['d0'], 'A': pc['D'], 'b': pc['e'], 'c': pc['f'], 'c0': pc['f0']}, x, y, z, u, nz,
+                              o.get('style', 0)) for pc in o['extra']]
+            e = rso.maxof(e, *more) if o['kind'] == 'minmax' else rso.minof(e, *more)
         (m.minmax if o['kind'] == 'minmax' else m.maxmin)(e, *setarg(0))
         default_needed = False
     xlo, xhi = np.array(case['xlo']), np.array(case['xhi'])
@@ -408,6 +422,14 @@ def obj_row(case):
     return {'a0': o['d0'], 'A': o['D'], 'b': o['e'], 'c': o['f'], 'c0': o['f0']}
 
 
+def obj_rows(case):
+    """all pieces of the objective: minmax of maxof(pieces) / maxmin of minof(pieces)"""
+    out = [obj_row(case)]
+    for pc in case['obj'].get('extra', []):
+        out.append({'a0': pc['d0'], 'A': pc['D'], 'b': pc['e'], 'c': pc['f'], 'c0': pc['f0']})
+    return out
+
+
 # ----------------------------------------------------------------------------- reference solver
 def reference_optimum(case, max_rounds=80, tol=1e-7):
     """Kelley cutting planes on the semi-infinite LP.  Returns (value, info) or (None, why)."""
@@ -447,7 +469,8 @@ def reference_optimum(case, max_rounds=80, tol=1e-7):
                 rows.append((row, s, 1.0))
             if con['sense'] in ('ge', 'eq'):
                 rows.append((row, s, -1.0))
-    orow = obj_row(case)
+    orows = obj_rows(case)
+    orow = orows[0]
     oset = case['sets'][0]
     A_ub, b_ub = [], []
 
@@ -460,7 +483,8 @@ def reference_optimum(case, max_rounds=80, tol=1e-7):
         b_ub.append(-const)
     for (row, s, sgn) in rows:
         add_cut(row, rosets.centre_w(s), sgn)
-    add_cut(orow, rosets.centre_w(oset), sign, True)
+    for orow_ in orows:
+        add_cut(orow_, rosets.centre_w(oset), sign, True)
     bounds = [(case['xlo'][i], case['xhi'][i]) for i in range(nx)] + [(-BIG, BIG)] * (ny + len(midx)) + [(-1e7, 1e7)]
     cost = np.zeros(nv)
     cost[T] = 1.0
@@ -477,8 +501,8 @@ def reference_optimum(case, max_rounds=80, tol=1e-7):
         x, y0, Y = unpack(v)
         worst = 0.0
         added = 0
-        for (row, s, sgn) in rows + [(orow, oset, sign)]:
-            is_obj = row is orow
+        for (row, s, sgn) in rows + [(orow_, oset, sign) for orow_ in orows]:
+            is_obj = any(row is orow_ for orow_ in orows)
             k, g = row_parts(row, x, y0, Y)
             val, w, exact = rosets.maximise(s, sgn * g)
             if val is None or not exact:
